@@ -77,3 +77,11 @@ Proof. reflexivity. Qed.
 (* ---- refuted: Fixed::round (half up) is not FT_RoundFix (half away from zero) on negative ties ---- *)
 Example ftroundfix_refuted : fx_round 32 16 (-32768) = 0 /\ ft_roundfix (-32768) = -65536.
 Proof. split; reflexivity. Qed.
+
+(* ---- MIAP cut-in: non-vacuity (CVT below the measured position by more than the cut-in: keep the position) and
+        divergence once cvt - cur wraps ---- *)
+Example c03_miap_cutin_nonvacuous : sk_miap_cutin 100 300 68 = 300 /\ ft_miap_cutin 100 300 68 = 300 /\
+  sk_miap_cutin 300 100 68 = 100 /\ sk_miap_cutin 150 100 68 = 150 /\ sk_miap_cutin 100 150 68 = 100.
+Proof. repeat split; reflexivity. Qed.
+Example miap_cutin_refuted : exists c o k, i32 c /\ i32 o /\ sk_miap_cutin c o k = c /\ ft_miap_cutin c o k = o /\ c <> o.
+Proof. exists 2147483647, (-1), 0. split; [i32c|]. split; [i32c|]. repeat split; try reflexivity. discriminate. Qed.
